@@ -226,6 +226,7 @@ func NewSeq(w *simrt.World, cfg *Config, prof *Profile, pools *Pools, ops []Op) 
 func Setup(w *simrt.World, cfg *Config) {
 	uuid.SetRand(w.UUIDRand())
 	sod.LowercaseNames = cfg.Lower
+	asyncShare = map[string]*sod.Async{}
 	shapes.OnTransform = nil
 	shapes.OnValidate = nil
 }
@@ -324,6 +325,8 @@ func (s *Seq) exec(op *Op) {
 		s.fullSweep("sweep")
 	case "repair":
 		s.opRepair()
+	case "drop":
+		s.opDrop()
 	case "misuse":
 		s.opMisuse(op)
 	case "getabsent":
@@ -603,24 +606,32 @@ func (s *Seq) opFlush(op *Op) {
 		err = s.db.Commit(rec0())
 	case "one", "onecommit":
 		u, ok := s.M.UUID[op.Lid]
-		if _, live := s.M.Objs[op.Lid]; !ok || !live {
+		if !ok {
 			return
 		}
-		o := model.Clone(s.M.Objs[op.Lid])
+		// Flush identifies an object; what reaches the disk is the accepted version that
+		// is pending (if any), never what the caller's object holds: the harness passes
+		// an object with the right identifier and garbage in it, also for objects that
+		// were deleted meanwhile (nothing may be written for those)
+		o := rec0()
+		if cur, live := s.M.Objs[op.Lid]; live && op.Lid%2 == 0 {
+			o = model.Clone(cur)
+		}
 		o.Initialize(u)
-		// Flush writes the object it is given: pass the stored value
+		Scribble(o)
 		if op.Mode == "one" {
 			err = s.db.Flush(o)
 		} else {
 			err = s.db.FlushAndCommit(o)
 		}
-		// Flush writes the object file after the last commit of the schema: the
-		// collection is not in a committed state until the next commit;
-		// FlushAndCommit ends with that commit
-		s.quiescent = false
+		if s.Cfg.Async {
+			// an object file may have been written after the last commit of the schema
+			s.quiescent = false
+		}
 		if op.Mode == "onecommit" && err == nil {
 			s.syncCommitted()
 		}
+		s.stat("flush-one")
 	}
 	if op.Mode == "commit" && err == nil {
 		s.syncCommitted()
@@ -819,4 +830,35 @@ func (s *Seq) opMisuse(op *Op) {
 		s.fail("read", "commit-failed", "Commit after a recovered Assign panic failed: %v", err)
 	}
 	s.lightReads("after-assign-misuse")
+}
+
+// opDrop: Drop removes every collection, on disk and on the handle; the handle
+// can be used again afterwards (Create), and nothing of the dropped collections
+// comes back (no pending write, no commit of a flusher, no cached object).
+func (s *Seq) opDrop() {
+	if err := s.db.Drop(); err != nil {
+		s.fail("read", "drop-failed", "Drop failed: %v", err)
+	}
+	for _, l := range s.M.Lids() {
+		s.modelDelete(l)
+	}
+	s.small = nil
+	s.held = map[int]*heldSearch{}
+	s.rejected = false
+	if ents, ok := s.W.FS.RawList(s.Root); ok && len(ents) > 0 {
+		s.fail("read", "drop-left-files", "after Drop the database directory still holds %d entries", len(ents))
+	}
+	// let time pass: a flusher of a dropped collection must not bring anything back
+	s.W.Sleep(time.Duration(s.Cfg.TimeoutMs+200) * time.Millisecond)
+	s.W.Settle()
+	if ents, ok := s.W.FS.RawList(s.Root); ok && len(ents) > 0 {
+		s.fail("read", "dropped-files-came-back", "some time after Drop the database directory holds %d entries again (first: %s)", len(ents), ents[0].Name)
+	}
+	if err := s.db.Create(rec0(), s.Cfg.Schema()); err != nil {
+		s.fail("read", "create-failed", "Create after Drop failed: %v", err)
+	}
+	s.smallOpen()
+	s.quiescent, s.smallDirty = true, false
+	s.stat("probe:drop-and-recreate")
+	s.lightReads("after-drop")
 }
